@@ -81,6 +81,27 @@ DUPKEY_TABLES = {
     # not be a faithful winner row
 }
 
+# a racing request that associates aggregates or traits overlaps with the
+# victim in ONE row, it does not insert the victim's whole batch (unlike a
+# second start-up sync, which inserts the same complete set)
+SINGLE_ROW_WINNER = ('resource_provider_aggregates',
+                     'resource_provider_traits')
+
+
+def _winner_of(table, statement, parameters, many):
+    if table not in SINGLE_ROW_WINNER:
+        return (statement, parameters, many)
+    if many:
+        return (statement, parameters[0], False)
+    m = re.match(r'(?is)^(\s*INSERT\s+INTO\s+.*?VALUES\s*)(\([^)]*\))'
+                 r'(\s*,\s*\([^)]*\))+\s*$', statement)
+    if m:
+        n = m.group(2).count('?')
+        if n and isinstance(parameters, (list, tuple)):
+            return (m.group(1) + m.group(2), tuple(parameters[:n]), False)
+    return (statement, parameters, many)
+
+
 STMT_FAULTS = ('deadlock-keep', 'deadlock-rollback', 'dupkey', 'connlost',
                'dberror', 'crash-before')
 COMMIT_FAULTS = ('commit-fail', 'crash-before', 'crash-after')
@@ -393,7 +414,8 @@ class Sim(object):
             if verb != 'INSERT' or col is None:
                 return  # not applicable here: fault does not fire
             self._count(task, kind, k)
-            task.pending_winners.append((statement, parameters, many))
+            task.pending_winners.append(
+                _winner_of(table, statement, parameters, many))
             raise sqlite3.IntegrityError(
                 'UNIQUE constraint failed: %s.%s' % (table, col))
         elif kind == 'dupkey-id':
